@@ -283,10 +283,11 @@ def oracle(rep, case, out):
 # ------------------------------------------------------------------ generators
 def gen_wavelengths(rng, n, wunit):
     """positive wavelengths in 1e1..1e7 Angstrom, expressed in the unit"""
-    lo = 10 ** rng.uniform(1, 6.5)
-    lams = [lo]
+    coarse = rng.random() < 0.2
+    lo = 10 ** (rng.uniform(1, 1.5) if coarse else rng.uniform(1, 6.5))
+    lams = [lo]       # neighbours up to a factor 11 apart (decade grids): the outer bins reach far out
     for _ in range(n - 1):
-        lams.append(lams[-1] * (1 + 10 ** rng.uniform(-4, -0.5)))
+        lams.append(lams[-1] * (1 + 10 ** (rng.uniform(-0.5, 0.9) if coarse else rng.uniform(-4, -0.5))))
     lams = [l for l in lams if l < 1e7] or [lo]
     kind, fac = WAVE_UNITS[wunit]
     fac = float(fac)
@@ -417,7 +418,7 @@ def run(rep):
         for s in casings(rng, name):
             cases.append({'op': 'unit_name', 'name': s, 'expect': expect})
     rep.rule = ('every ordered pair of 15 flux units (incl. Jy, mJy, uJy, MJy, pJy, PJy) x wavelength-unit kinds x {ascending, descending, scalar}, '
-                'plus random pairs; wavelengths log-uniform in 1e1..1e7 A, linear fluxes log-uniform over 60 decades with '
+                'plus random pairs; wavelengths log-uniform in 1e1..1e7 A (neighbours 1e-4 .. 10 apart in relative terms), linear fluxes log-uniform over 60 decades with '
                 'both signs and zeros, magnitudes in [-60, 60], area in cm^2 or m^2, positive Vega table; 35% with an '
                 'intermediate unit C (A->C->B); half of the Vega conversions after 1-2 earlier conversions with the same Vega object (same numbers in another wavelength unit, same grid, other grid); every unit name of the statement in up to 6 letter casings. '
                 'Non-trivial: uin != uout and the conversion did not end in a missing-input error.')
